@@ -19,6 +19,7 @@ RULE = ("12 predefined sizes x 20 residues (exhaustive) through single-residue a
         "object; distinct = distinct (size or user map, sequence); non-trivial = all")
 RULE += ("; added after the mutation rounds: integer-valued spellings of the size ('5', ' 12 ', 5.0, numpy int); returned alphabets emptied by the caller; user dictionaries with extra non-amino-acid keys; the first cases of every shard are judged again at its end")
 RULE += ("; round 5: extra keys with arbitrary values; an amino acid mapped onto an extra key (must be rejected)")
+RULE += ("; round 7: sequences of 1001-1600 residues in the reduction laws")
 EXHAUSTIVE = {"quick": False, "thorough": False}
 EXHAUSTIVE_NOTE = {"quick": "12 sizes x 20 residues enumerated completely; integer sizes 0..25",
                    "thorough": "12 sizes x 20 residues enumerated completely; integer sizes 0..25"}
@@ -28,7 +29,7 @@ ASSUMPTIONS = [
     "entries of a user dictionary for keys beyond the 20 amino acids take no part in the reduction nor in the alphabet",
 ]
 REQUIRED = {"all": ["salted_objects", "cells_checked", "sizes_rejected", "laws_checked", "user_total_accepted", "user_invalid_rejected",
-                    "user_switch_on_same_object", "size_forms_accepted", "user_total_with_extra_keys", "user_bijections", "amino_acid_mapped_onto_extra_key"]}
+                    "user_switch_on_same_object", "size_forms_accepted", "user_total_with_extra_keys", "user_bijections", "amino_acid_mapped_onto_extra_key", "longer_than_1000"]}
 SIZES = [2, 3, 4, 5, 6, 8, 10, 11, 12, 15, 18, 20]
 NSEQ = {"quick": 600, "thorough": 4000}
 NUSER = {"quick": 800, "thorough": 6000}
@@ -38,6 +39,8 @@ def cases(tier, seed):
     yield {"k": "cells"}
     yield {"k": "sizes"}
     rng = gen.sub_rng(seed, ID)
+    for cls in ("uniform", "idp", "lowcomplexity"):
+        yield {"k": "laws", "a": gen.rand_seq(rng, cls, lo=1001, hi=1600), "b": gen.rand_seq(rng, hi=60), "long": 1}
     for i in range(NSEQ[tier]):
         yield {"k": "laws", "a": gen.rand_seq(rng, hi=120), "b": gen.rand_seq(rng, hi=60)}
     for i in range(NUSER[tier]):
@@ -106,6 +109,8 @@ def judge(case, rep, S):
                 rep.viol("size_accepted", "alphabet size %d accepted: %r" % (size, r), sig={"size": size})
     elif k == "laws":
         a, b = case["a"], case["b"]
+        if len(a) > 1000:
+            rep.cnt("longer_than_1000")
         oa, ob, oab = SP(a), SP(b), SP(a + b)
         # integer-valued spellings of a predefined size: either rejected or exactly that size's reduction
         np = S["np"]
